@@ -377,6 +377,11 @@ def serItems (first pre eol : Bytes) (c : Choices) (ord : Option Nat) (tight : B
       | some st => decimalStr (min (st + idx) 999999999) ++ (if dl == 0 then s "." else s ")")
       | none => if mk == 0 then s "-" else if mk == 1 then s "+" else s "*"
     let (n, c3) := pick c2 4
+    -- an item that BEGINS with an indented code block: exactly one space after the marker (§5.2 rule 2), the block's own
+    -- four columns follow
+    let n := match it with
+      | .indented _ :: _ => 0
+      | _ => n
     let pad := spacesN (n + 1)
     let inner := pre ++ spacesN (marker.length + n + 1)
     let fst := (if idx == 0 then first else pre) ++ marker ++ pad
